@@ -70,3 +70,76 @@ Theorem C08_search_cycle_only_postgres :
   rwith is_alpha b T rq (WithClause rc search cycle ctes) = rwith is_alpha b T rq (WithClause rc None None ctes).
 Proof. exact search_cycle_only_postgres. Qed.
 Print Assumptions C08_search_cycle_only_postgres.
+
+(* At the level of the ENGINE'S TOKENS.  For every SELECT / INSERT / UPDATE / DELETE of the class query_plain
+   (Proofs/StmtSafeProofs.v: no custom templates, no FIELD ordering, raw SQL atoms that lex on their own), every
+   backend, every nesting depth and every table whose spellings lex: the engine's token stream of the SQL that
+   build() returns is the concatenation, in render order, of the token streams of the statement's clauses - each
+   clause lexed on its own, its placeholders numbered from where the clause starts (clause_starts); a clause that was
+   not given contributes no token, and no token is read across the boundary of two clauses.  With the order theorems
+   above (the render order respects the dialect's grammar positions) every given clause is found, once, at its
+   position in the token stream.  A clause that starts with a fixed text (` WHERE `, ` ORDER BY `, ...) contributes
+   the tokens of that text first (C08_clause_starts_with_its_keyword).  Not proved: that the tokens inside a clause
+   are parenthesis-balanced (so that its keyword is the only one at depth 0); the clause reader of the check decides
+   that on the implementation's output. *)
+Require Import SQV.Spec.EngTok SQV.Spec.ScriptSafe SQV.Proofs.ExprSafeProofs SQV.Proofs.StmtSafeProofs
+  SQV.Proofs.ClauseTokProofs.
+Theorem C08_select_tokens_are_clause_tokens :
+  forall (ftext : bool -> N -> str) is_alpha b T, spellings_lex b T -> forall fuel s,
+  query_plain ftext b false (S fuel) (QSelect s) = true ->
+  let rq := rquery is_alpha b T fuel in
+  let cls := map (sel_clause is_alpha b T rq s) sel_render_order in
+  exists tks, eng_tokens b (sqlc ftext b 0 (rquery is_alpha b T (S fuel) (QSelect s))) = Some (List.concat tks) /\
+              Forall2 (fun cs tk => eng_tokens b (sqlc ftext b (fst cs) (snd cs)) = Some tk)
+                      (combine (clause_starts 0 cls) cls) tks.
+Proof. exact select_tokens_are_clause_tokens. Qed.
+Print Assumptions C08_select_tokens_are_clause_tokens.
+
+Theorem C08_insert_tokens_are_clause_tokens :
+  forall (ftext : bool -> N -> str) is_alpha b T, spellings_lex b T -> forall fuel i,
+  query_plain ftext b false (S fuel) (QInsert i) = true ->
+  let rq := rquery is_alpha b T fuel in
+  let cls := map (ins_clause is_alpha b T rq i) ins_render_order in
+  exists tks, eng_tokens b (sqlc ftext b 0 (rquery is_alpha b T (S fuel) (QInsert i))) = Some (List.concat tks) /\
+              Forall2 (fun cs tk => eng_tokens b (sqlc ftext b (fst cs) (snd cs)) = Some tk)
+                      (combine (clause_starts 0 cls) cls) tks.
+Proof. exact insert_tokens_are_clause_tokens. Qed.
+Print Assumptions C08_insert_tokens_are_clause_tokens.
+
+Theorem C08_update_tokens_are_clause_tokens :
+  forall (ftext : bool -> N -> str) is_alpha b T, spellings_lex b T -> forall fuel u,
+  query_plain ftext b false (S fuel) (QUpdate u) = true ->
+  let rq := rquery is_alpha b T fuel in
+  let cls := map (upd_clause is_alpha b T rq u) upd_render_order in
+  exists tks, eng_tokens b (sqlc ftext b 0 (rquery is_alpha b T (S fuel) (QUpdate u))) = Some (List.concat tks) /\
+              Forall2 (fun cs tk => eng_tokens b (sqlc ftext b (fst cs) (snd cs)) = Some tk)
+                      (combine (clause_starts 0 cls) cls) tks.
+Proof. exact update_tokens_are_clause_tokens. Qed.
+Print Assumptions C08_update_tokens_are_clause_tokens.
+
+Theorem C08_delete_tokens_are_clause_tokens :
+  forall (ftext : bool -> N -> str) is_alpha b T, spellings_lex b T -> forall fuel d,
+  query_plain ftext b false (S fuel) (QDelete d) = true ->
+  let rq := rquery is_alpha b T fuel in
+  let cls := map (del_clause is_alpha b T rq d) del_render_order in
+  exists tks, eng_tokens b (sqlc ftext b 0 (rquery is_alpha b T (S fuel) (QDelete d))) = Some (List.concat tks) /\
+              Forall2 (fun cs tk => eng_tokens b (sqlc ftext b (fst cs) (snd cs)) = Some tk)
+                      (combine (clause_starts 0 cls) cls) tks.
+Proof. exact delete_tokens_are_clause_tokens. Qed.
+Print Assumptions C08_delete_tokens_are_clause_tokens.
+
+Theorem C08_clause_starts_with_its_keyword :
+  forall (ftext : bool -> N -> str) b kw rest c,
+  sc_ok ftext b false (WS kw :: rest) = true ->
+  exists tkw trest, eng_tokens b kw = Some tkw /\
+                    eng_tokens b (sqlc ftext b c (WS kw :: rest)) = Some (tkw ++ trest).
+Proof. exact clause_starts_with_its_keyword. Qed.
+Print Assumptions C08_clause_starts_with_its_keyword.
+
+Theorem C08_tokens_of_parts :
+  forall (ftext : bool -> N -> str) b A B c, sc_ok ftext b false (A ++ B) = true ->
+  exists ta tb, eng_tokens b (sqlc ftext b c (A ++ B)) = Some (ta ++ tb) /\
+                eng_tokens b (sqlc ftext b c A) = Some ta /\
+                eng_tokens b (sqlc ftext b (c + nholes A) B) = Some tb.
+Proof. exact tokens_of_parts. Qed.
+Print Assumptions C08_tokens_of_parts.
